@@ -49,6 +49,7 @@ func genC06(t *tape.Tape, tier string) any {
 		}
 	}
 	c.MITM = t.Chance(1, 10)
+	c.TLSListener = !c.MITM && t.Chance(1, 4)
 	if mode != 0 && kind != "socks5" && t.Chance(1, 4) {
 		// the upstream proxy resets the first connection(s) it accepts: the hop's preamble (with its credentials) is
 		// then in flight, half written or not written at all when the connection dies, and later requests follow
